@@ -10,18 +10,31 @@ RULE = ("tie-rich generated journals (few days, many same-day directives, duplic
         "and exit classes must be identical. C06.order: `knut print` is run 6 times in the same way (all runs identical), and its "
         "stdout must equal, byte for byte, the extracted model Source.print_tagged = Build with the source sort (build_sorted) + "
         "journal.Print, evaluated on the directives tagged with (path of their file, position) and handed over in REVERSED order. "
+        "C06.reg: `knut register --color=false` with a generated flag combination (window, interval, --last, -v, -c -d -a -s, "
+        "-m -r, --source --dest --commodity, --digits, -k) on a journal with few days, many same-day transactions and copies "
+        "that share (date, Dest, commodity) but differ in source or description, descriptions longer than 100 bytes, spread over an "
+        "include tree; run 6 times (all runs identical: stdout bytes and exit class) and the first run must equal, byte for byte, "
+        "the extracted model Register.register_text on the directives in source order (for the nil-Dest panic of a level-0 -m rule, "
+        "at most 5% of the cases: the exit class). "
         "Non-trivial: every C06.repeat case (the generator always produces same-day ties); a C06.order case when more than one file "
-        "holds directives; distinct by input.")
-TRUSTED_BASE = ["Coq 8.16.1 kernel", "extraction + drv_c05.ml (C06.repeat) + drv_c06.ml (C06.order) + drv_journal.ml (decoder)",
+        "holds directives; distinct by input; a C06.reg case when the table has at least two data rows or the run panics.")
+TRUSTED_BASE = ["Coq 8.16.1 kernel", "extraction + drv_c05.ml (C06.repeat) + drv_c06.ml (C06.order) + drv_c06reg.ml (C06.reg; parses nothing of knut's output) + drv_journal.ml (decoder)",
                 "harness c05.go (obsC06: repeated runs, include-tree writer) and c06.go (obsC06Order; layoutPath = the path under which "
-                "knut knows an included file)",
+                "knut knows an included file) and c06reg.go (obsC06Reg; RegCfg <-> argv)",
+                "register: Valuation is not part of the model's key (constant per run); a description cut inside a multi-byte "
+                "character (desc[:100]) is not generated (Model/Table.v counts runes of valid UTF-8 only); --color and --cpuprofile "
+                "are outside",
                 "Go scheduler and map seeds are sampled, not enumerated"]
 ASSUMPTIONS = ["float summation order in `portfolio weights` is outside this check (C20)"]
 TECHNIQUE = ("Coq: (A) journal.Builder on directives tagged with their source position, Build with the stable source sort of "
              "69e47a8 (Model/Source.v); a stable sort by a strict weak order is the unique solution of its contract and depends only on "
              "the per-class subsequences (Proofs/StableSort.v); Build = the builder of Model/Journal.v on the source-ordered sequence "
              "(Proofs/DeterminismProofs.v). (B) permutation invariance of every model function that stands for a Go map range "
-             "(Proofs/MapOrderProofs.v, InferOrder.v, PriceProofs.v). Check: repeated runs of the binary under varied GOMAXPROCS / "
+             "(Proofs/MapOrderProofs.v, InferOrder.v, PriceProofs.v). (C) `knut register`: an executable model of the command "
+             "(Model/Register.v) on the pipeline stages of Model/Pipeline.v; the report is one association list sorted by an "
+             "injective key encoding, so commuting insertions give Leibniz-equal reports and the generic fold-permutation lemma of "
+             "C05 applies with equality; the stage relations of Proofs/OrderPipeline.v are reused; the row comparison is a good_cmp "
+             "(Proofs/TxnOrder.v) and total on the keys of a node, so the stable sort is order-free (Proofs/StableSort.v). Check: repeated runs of the binary under varied GOMAXPROCS / "
              "schedule perturbation")
 LEVEL_TEXT = ("Theorems (Properties/C06.v, all closed under the global context). "
               "A, arrival order: C06_arrival -- for every permutation of the tagged directives (equal source position => equal "
@@ -42,12 +55,24 @@ LEVEL_TEXT = ("Theorems (Properties/C06.v, all closed under the global context).
               "rationals); C06_weight_order (weights are the same decimal); C06_sort_siblings, C06_sort_top (the sort with the name "
               "tie-break of bffd269 gives one list for every enumeration of the children map, and it is the model's list; "
               "C06_pinned_sort_refuted, F6); C06_infer_candidates; C06_weights_adds. "
+              "C, knut register (Properties/C06reg.v, model Model/Register.v tied byte for byte by C06.reg): "
+              "C06_register_order_irrelevant -- for every register and text configuration a journal and any permutation of it build the "
+              "same table and print the same bytes, or both fail (hypotheses of C05: parser-shaped accounts, no conflicting same-day "
+              "prices); C06_register_insert_commutes; C06_register_factor (flags, loader, a function of the journal: with C06_arrival "
+              "the arrival order of the files does not matter); C06_register_map_order -- the rows of a date are the same for every "
+              "enumeration of the node's map (repaired comparison of 4dc8b78: C06_register_cmp_good, C06_register_cmp_separates); "
+              "C06_register_map_order_pinned_refuted (the comparison of a319b05: two enumerations, two tables -- the defect found and "
+              "fixed); C06_register_total_partial -- without a level-0 -m rule the command returns bytes or an error, never a panic; "
+              "C06_register_report_total; C06_register_panic_class; C06_register_total_refuted (-m 0,<rx> hides the Dest account and "
+              "Render dereferences nil: an observation, register is not in C14's command list); C06_register_matches_balance -- see "
+              "the file. "
               "Partial: the Go scheduler and map seeds are sampled by the check, not enumerated; for the Valuate/CloseAccounts loops "
               "byte equality of the final report is proved only through the totals (not through the renderer); which erroneous "
               "directive an error message names (stderr) is outside.")
 LEVEL_NOTE = ("Trusted: kernel, extraction, harness; Go runtime sampled. Outside the rational model: float64 summation order in "
               "`portfolio weights`/`returns` (the commands are run repeatedly by this check -- the tie-break defect of SortWeighted was "
-              "found that way and fixed in 68dd52f -- but their float arithmetic has no theorem).")
+              "found that way and fixed in 68dd52f -- but their float arithmetic has no theorem). `knut register`: C06_register_total holds only without level-0 rules "
+              "(_partial/_refuted); the error kinds are named in a comment, not proved exhaustive.")
 
 
 def plan(tier, seed):
